@@ -312,7 +312,11 @@ func genC19(c *Ctx) {
 	for i := 0; i < n; i++ {
 		style := []string{"exec", "exec", "runtest", "model", "exec", "import", "runtest", "model"}[i%8]
 		if style == "import" {
-			c19ImportCase(c)
+			if i%16 == 5 {
+				c19ServerCase(c)
+			} else {
+				c19ImportCase(c)
+			}
 			continue
 		}
 		hlen := c.Rng.Intn(7)
@@ -524,6 +528,55 @@ func c19ImportCase(c *Ctx) {
 		rec.Skip = "history-file-failed"
 	} else if after != fresh {
 		rec.Oracle = fmt.Sprintf("after the other directories: %s ; in a new process: %s", after.String(), fresh.String())
+	}
+	c.Em.Emit(rec)
+}
+
+// c19ServerCase: a handler function that outlives single evaluations (as the callbacks of the http module do) is
+// called for a sequence of requests; the last request is compared with the same request handled by a handler in a
+// newly started process. Bodies assign locals conditionally and read argument / keyword variables.
+func c19ServerCase(c *Ctx) {
+	bodies := []string{
+		"who := user if user\n  [who, lang].p",
+		"greeting := \"hi\" if lang == \"en\"\n  [user, greeting].p",
+		"[user, \\2].p",
+		"[user, \\lang].p",
+		"count := 0 if user\n  count += 1\n  count.p",
+		"seen := [user] if lang\n  seen.p",
+		"tmp := user.S + \"!\" if user\n  tmp.p",
+	}
+	body := bodies[c.Rng.Intn(len(bodies))]
+	def := "handler := {|user, lang: nil|\n  " + body + "\n}\n"
+	reqs := []string{"handler(\"alice\", 7, lang: \"en\")", "handler(\"bob\", lang: \"fr\")", "handler(nil)", "handler()", "handler(\"carol\")", "handler(nil, 3)"}
+	n := 1 + c.Rng.Intn(4)
+	hist := []string{}
+	for k := 0; k < n; k++ {
+		hist = append(hist, reqs[c.Rng.Intn(len(reqs))])
+	}
+	probe := reqs[2+c.Rng.Intn(4)]
+	if !c.Mine() {
+		return
+	}
+	it := NewInterp()
+	env := object.NewEnclosedEnv(it.base)
+	it.RunIn(env, def, "", defaultFuel)
+	for _, h := range hist {
+		it.RunIn(env, h+"\n", "", defaultFuel)
+	}
+	after := obsOf(it.RunIn(env, probe+"\n", "", defaultFuel))
+	rec := Rec{Src: def + strings.Join(hist, "\n") + "\n=====\n" + probe, NT: true, Tags: []string{"server", fmt.Sprintf("hist-%d", n), "probe-" + after.Kind}}
+	fresh, err := freshObs(c19Req{Style: "exec", Src: def + probe + "\n"})
+	if err != nil {
+		rec.Skip = "reference-failed"
+		c.Em.Emit(rec)
+		return
+	}
+	fresh.Consts = ""
+	rec.Impl = after.String()
+	// positions differ (the fresh process evaluates definition and request as one program): compare what the request
+	// printed, its value and the kind / message of its error
+	if after.Kind != fresh.Kind || after.Stdout != fresh.Stdout || after.Inspect != fresh.Inspect || after.ErrMsg != fresh.ErrMsg {
+		rec.Oracle = fmt.Sprintf("after earlier requests: %s ; first request of a new process: %s", after.String(), fresh.String())
 	}
 	c.Em.Emit(rec)
 }
